@@ -46,3 +46,6 @@ run $B/I1_reorder_analyze_aggregates.diff C04 C06 C18
 run $B/I2_commute_stepup.diff C10
 run $B/I3_commute_coef_test.diff C06 C18
 run $B/I4_k_expr.diff C10
+run $B/J1_negated_branch.diff C04 C18
+run $B/J2_div_regroup.diff C04 C07 C18
+run $B/J4_elif_chain.diff C04 C07 C18
